@@ -1013,8 +1013,56 @@ def run_sequences(ctx, tier, seed):
                     break
 
 
+def run_copies(ctx):
+    """the operands are copies (copy constructor, .copy(), copy.copy, copy.deepcopy, pickle) and the copy is changed by a list operation
+    before the ORIGINAL is used: add / subtract / negate / pose * v / inertia * v on the original are unaffected, for 1..3 values"""
+    import copy as _copy
+    import pickle as _pickle
+    import spatialmath as sm
+    T = ref.rt(ref.rotx(0.3) @ ref.roty(-0.2), (1.0, 2.0, 3.0))
+    Ad = ref.adjoint(T)
+    I_ = sm.SpatialInertia(2.0, [0.1, 0.2, 0.3], np.diag([1.0, 2.0, 3.0]))
+    IA = np.asarray(I_.A, dtype=float).copy()
+    copiers = (('ctor', lambda x: type(x)(x)), ('copy()', lambda x: x.copy()), ('copy.copy', _copy.copy), ('deepcopy', _copy.deepcopy), ('pickle', lambda x: _pickle.loads(_pickle.dumps(x))))
+    muts = (('setitem', lambda c: c.__setitem__(0, type(c)(np.arange(10.0, 16.0)))), ('append', lambda c: c.append(type(c)(np.arange(10.0, 16.0)))), ('pop', lambda c: c.pop()),
+            ('reverse', lambda c: c.reverse()), ('clear', lambda c: c.clear()))      # (writing into c.data[i] in place is not a list operation: shallow copies share the value arrays)
+    for cn in CLS:
+        Cc = getattr(sm, cn)
+        for n, (kn, kf), (mn, mf) in itertools.product((1, 2, 3), copiers, muts):
+            cid = 'C20/copy/%s/n=%d/%s/%s' % (CODE[cn], n, kn, mn)
+            if not ctx.want(cid):
+                continue
+            ctx.case(cid, key=cid)
+            xs = [np.array([1.0, 2, 3, 4, 5, 6]) * (j + 1) for j in range(n)]
+            ys = [np.array([0.5, -1, 2, 0.1, 0.2, -0.3]) + j for j in range(n)]
+            X = Cc(xs[0].copy())
+            X.data = [v.copy() for v in xs]
+            Y = Cc(ys[0].copy())
+            Y.data = [v.copy() for v in ys]
+            P = dict(op='copy', lcls=cn, rcls=cn, n=n, copier=kn, mutation=mn)
+            okc, c = call(kf, X)
+            if not okc:
+                ctx.note('copy_refused', '%s %s -> %s' % (cn, kn, type(c).__name__))
+                continue
+            if type(c) is not Cc or len(c.data) != n or any(not np.array_equal(a_, b_) for a_, b_ in zip(c.data, xs)):
+                ctx.fail(cid, 'SpatialVector.__init__', 'mismatch', dict(P, what='copy'), 'the %s of %d values holds %r' % (kn, n, [np.asarray(d).tolist() for d in getattr(c, 'data', [])]))
+                continue
+            call(mf, c)
+            ok, r = call(lambda: ([np.asarray(d, dtype=float).copy() for d in X.data], [np.asarray(d, dtype=float) for d in (X + Y).data], [np.asarray(d, dtype=float) for d in (X - Y).data],
+                                  [np.asarray(d, dtype=float) for d in (-X).data], [np.asarray(d, dtype=float) for d in (sm.SE3(T.copy()) * X).data]))
+            if not ok:
+                ctx.fail(cid, 'SpatialVector.__add__', 'raises:' + type(r).__name__, P, 'after the %s was changed by %s, using the original raised %r' % (kn, mn, r))
+                continue
+            Mx = Ad if cn in MOTION else Ad.T
+            wants = (xs, [a_ + b_ for a_, b_ in zip(xs, ys)], [a_ - b_ for a_, b_ in zip(xs, ys)], [-a_ for a_ in xs], [Mx @ a_ for a_ in xs])
+            for nm_, got, want in zip(('X itself', 'X+Y', 'X-Y', '-X', 'T*X'), r, wants):
+                if len(got) != len(want) or any(np.abs(g_ - w_).max() > 1e-9 * max(1.0, float(np.abs(w_).max())) for g_, w_ in zip(got, want)):
+                    ctx.fail(cid, 'SpatialVector.__init__', 'mismatch', dict(P, what=nm_), 'after the %s was changed by %s: %s of the original is wrong' % (kn, mn, nm_))
+                    break
+
+
 def shards(tier, seed):
-    out = [('sequences',)]
+    out = [('sequences',), ('copies',)]
     for lcls in CLS:
         for opn in ('add', 'sub'):
             out.append(('arith', lcls, opn))
@@ -1077,5 +1125,7 @@ def run_shard(ctx, shard):
         run_info(ctx, tier, seed)
     elif kind == 'sequences':
         run_sequences(ctx, tier, seed)
+    elif kind == 'copies':
+        run_copies(ctx)
     else:
         raise HarnessError('unknown shard %r' % (shard,))
